@@ -671,8 +671,13 @@ def u_add_class_commands(ip: Interp, th: ControlTheory):
         return out
 
     th.ev_dict_display = ev_dict_display
-    args = {"cls": cls_, "public_only": BoolV(True), "omit_members": TupleV([]), "member_arg_name": StrV("command")}
-    for s, v in ip.exec_function(st, ip.repo.get(PAR + "add_class_commands"), SelfV("ControlParser"), args):
+    # called the way client_handshake calls it: only the class is passed, everything else takes the function's REAL defaults
+    fi_acc = ip.repo.get(PAR + "add_class_commands")
+    args = ip.bind_args(st, fi_acc.node, [cls_], {}, True, Frame(fi_acc, fi_acc.module, SelfV("ControlParser"), 0))
+    ip.require(st, "defaults:public_only-defaults-to-True,nothing-omitted,command-key-is-`command`",
+               z3.BoolVal(isinstance(args.get("public_only"), BoolV) and z3.is_true(z3.simplify(args["public_only"].t)) and isinstance(args.get("omit_members"), TupleV) and not args["omit_members"].items
+                          and isinstance(args.get("member_arg_name"), StrV) and args["member_arg_name"].lit == "command"), P)
+    for s, v in ip.exec_function(st, fi_acc, SelfV("ControlParser"), args):
         if isinstance(v, Exit):
             ip.require(s, f"noraise:{v.val.cls}", z3.BoolVal(False), P)
             continue
